@@ -44,7 +44,7 @@ def _pow_uninterpreted(interp, A, B, a_raw, b_raw):
     return SV(r, A.ty if A.ty in (DEC,) else "float")
 
 
-IDEAL = {"ideal_floors": True, "sqrt_uf": True, "feas_linear": True, "pow_model": _pow_uninterpreted}
+IDEAL = {"ideal_floors": True, "sqrt_uf": True, "feas_linear": True, "pow_model": _pow_uninterpreted, "native_samples": {"quick": 40, "thorough": 400}}
 DECIMALS = {"quick": [{"dq": 6, "db": 18}, {"dq": 18, "db": 6}],
             "thorough": [{"dq": a, "db": b} for a in (6, 8, 18) for b in (6, 8, 18)]}
 
